@@ -20,4 +20,43 @@ CLAIMS = {
     },
 }
 
+CLAIMS["C05"] = {
+    "text": "Decides the structural part of the type mapping on all inputs: the leaf table (int/str/bool/float/None and "
+            "'any other name'), the constructor table of mypy_type_to_abstract_type over every mypy ProperType class and "
+            "every builtin container name, the rendering shape of each API type kind, compositionality (every nested "
+            "type key written by a to_dict is read by the kind's branch and handed to the translator; every nested mypy "
+            "component is translated recursively), union normalisation (the joined member list carries a dedup and a "
+            "sort provenance tag; T? only under len == 2 and a none member), and that all nine positions call the same "
+            "translator pair. These are necessary conditions extracted as tables from the code by partitioned abstract "
+            "interpretation; agreement with an independent reference translation of arbitrary annotation text is not decided.",
+    "note": TRUST + "Reference tables are the ones the property statement lists.",
+    "technique": "table extraction by specialisation per type class/kind/name + provenance tags on joined sequences",
+    "ref": "DESIGN.md section 5 C05",
+}
+CLAIMS["C06"] = {
+    "text": "Decides on all signatures: the ArgKind x pos_only x receiver table of get_argument_kind equals the reference "
+            "mapping and cannot raise; the argument loop appends exactly one Parameter per argument on every path, named "
+            "by the argument, in source order, with is_optional = (default present or default is None); the generator "
+            "appends exactly one entry per non-receiver parameter in order; the receiver flag passed by every caller "
+            "equals 'method and not static' / constructor and only the first parameter is skipped; the default rendering "
+            "table over {str, True, False, None, UnknownValue, int, float, negative} x 5 passing kinds x optionality; the "
+            "literal-value table over all 49 mypy expression classes; Parameter.to_dict writes same-named fields. Numeric "
+            "text equality (str(float)) and docstring-provided defaults are not decided.",
+    "note": TRUST,
+    "technique": "specialisation of dispatch functions and per-iteration path analysis of the parameter loops",
+    "ref": "DESIGN.md section 5 C06",
+}
+CLAIMS["C20"] = {
+    "text": "Decides for every declaration order and feature combination: every marker that can become pending is a key "
+            "of the message table; a clean/dirty typestate over the effect traces of all generator methods shows that "
+            "each declaration emitter ends with an empty pending set, embeds every flush result in its returned text, "
+            "and only calls nested declaration emitters with an empty pending set (so a marker can only be printed "
+            "directly above the declaration that raised it); the flush prints and empties; the set is reset at module "
+            "start; and the guard of each marker, extracted as a truth table over the model features, equals the "
+            "reference table from the property statement.",
+    "note": TRUST + "Loop bodies are analysed once peeled and once generically; effect traces of merged loop states are unions.",
+    "technique": "typestate over effect traces with callee summaries + guard truth tables by specialisation",
+    "ref": "DESIGN.md section 5 C20",
+}
+
 NOT_APPLICABLE = {}
